@@ -195,6 +195,12 @@ func (u *unpacker) read(sz uint64, x interface{}) bool {
 }
 
 func (u *unpacker) readStr(n int) (ok bool) {
+	if n < 0 || n > len(u.pack)-u.j {
+		// Check the length before allocating: it may come from the packed
+		// data (option "s")
+		u.err = errUnexpectedPackEnd
+		return false
+	}
 	if !u.consumeBudget(uint64(n)) {
 		return false
 	}
